@@ -208,8 +208,8 @@ MUTANTS = [
      "        return self._lo + (self._hi - self._lo) * self._stream.next_float()",
      "        return self._lo + (self._hi - self._lo) * 1.0000001 * self._stream.next_float()", 3000),
     ("c14-sigma-zero-accepted", "C14", "distributions.py",
-     "        if sigma <= 0:\n            raise ValueError(f\"parameter sigma {sigma} should be > 0\")\n        self._mu: float = float(mu)\n        self._sigma: float = float(sigma)\n        self._have_saved_gaussian",
-     "        self._mu: float = float(mu)\n        self._sigma: float = float(sigma)\n        self._have_saved_gaussian", 3000),
+     "        if sigma <= 0:\n            raise ValueError(f\"parameter sigma {sigma} should be > 0\")\n",
+     "", 3000),
     # ---- C18
     ("c18-no-bounds-test", "C18", "parameters.py",
      "        if not self._min <= value <= self._max:\n            raise ValueError(f\"parameter value {value} not between \" + \\\n                             f\"{self._min} and {self._max}\")\n        self._value = value\n\n\nclass InputParameterFloat",
@@ -272,7 +272,7 @@ def patch(path, old, new):
     o = old.encode().replace(b"\r\n", b"\n").replace(b"\n", b"\r\n")
     n = new.encode().replace(b"\r\n", b"\n").replace(b"\n", b"\r\n")
     if b.count(o) < 1:
-        raise SystemExit("pattern not found in %s: %r" % (path, old[:70]))
+        raise KeyError("pattern not found in %s: %r" % (path, old[:70]))
     open(path, "wb").write(b.replace(o, n, 1))
 
 
@@ -315,10 +315,16 @@ def main():
             d = tempfile.mkdtemp(prefix="vfmut.")
             try:
                 shutil.copytree("/repo/src", d + "/src")
-                patch(d + "/src/" + CORE + fn, old, new)
-                if mid in EXTRA_HEAD:
-                    f2, o2, n2 = EXTRA_HEAD[mid]
-                    patch(d + "/src/" + CORE + f2, o2, n2)
+                try:
+                    patch(d + "/src/" + CORE + fn, old, new)
+                    if mid in EXTRA_HEAD:
+                        f2, o2, n2 = EXTRA_HEAD[mid]
+                        patch(d + "/src/" + CORE + f2, o2, n2)
+                except KeyError as e:
+                    results["mutants"].append({"id": mid, "property": prop, "caught": False,
+                                               "error": str(e)})
+                    print("%-36s %s PATTERN-MISSING %s" % (mid, prop, e), flush=True)
+                    continue
                 tests_ok = run_tests(d + "/src") if args.with_tests else None
                 t0 = time.time()
                 rc, lines, tail = run_check(d + "/src", prop, runs)
